@@ -10,8 +10,35 @@
 // * `VerifSort`: stable compare-exchange sort shadowing `<[T]>::sort_by_key`
 use std::sync::atomic::{AtomicUsize, Ordering};
 
+// NOTE (Kani 0.68): a mutable static whose initial bytes equal those of some constant in
+// std (e.g. eight zero bytes, like `RawVecInner::ZERO_CAP`) may share storage with that
+// constant in the generated goto program, so that storing to the static changes the
+// constant (observed: `CONSUMED.fetch_add(1)` turned every later `Vec::new()` into a Vec of
+// capacity 1).  Every mutable static below therefore starts from a distinct non-zero
+// bit pattern, and the accessors subtract it.
+const B_SAMPLES: usize = 0x5a17_0000_0000_1001;
+const B_PRODUCED: usize = 0x5a17_0000_0000_2002;
+const B_CONSUMED: usize = 0x5a17_0000_0000_3003;
+const B_PCALLS: usize = 0x5a17_0000_0000_4004;
+const B_CCALLS: usize = 0x5a17_0000_0000_5005;
+const B_ACT: usize = 0x5a17_0000_0000_6006;
+const B_HOOK: usize = 0x5a17_0000_0000_7007;
+const B_LOCKS: usize = 0x5a17_0000_0000_8008;
+
 /// Stream capacity override in samples; 0 = library default.
-pub static STREAM_SAMPLES: AtomicUsize = AtomicUsize::new(0);
+pub struct Cell0(AtomicUsize, usize);
+impl Cell0 {
+    pub fn load(&self, o: Ordering) -> usize {
+        self.0.load(o).wrapping_sub(self.1)
+    }
+    pub fn store(&self, v: usize, o: Ordering) {
+        self.0.store(v.wrapping_add(self.1), o)
+    }
+    pub fn fetch_add(&self, v: usize, o: Ordering) -> usize {
+        self.0.fetch_add(v, o).wrapping_sub(self.1)
+    }
+}
+pub static STREAM_SAMPLES: Cell0 = Cell0(AtomicUsize::new(B_SAMPLES), B_SAMPLES);
 
 /// Set the capacity (in samples) of every stream created from now on.
 pub fn set_stream_samples(n: usize) {
@@ -21,14 +48,14 @@ pub fn set_stream_samples(n: usize) {
 pub const PRODUCE: u32 = 0;
 pub const CONSUME: u32 = 1;
 /// Samples committed on any sample stream since process start / last reset.
-pub static PRODUCED: AtomicUsize = AtomicUsize::new(0);
+pub static PRODUCED: Cell0 = Cell0(AtomicUsize::new(B_PRODUCED), B_PRODUCED);
 /// Samples consumed on any sample stream.
-pub static CONSUMED: AtomicUsize = AtomicUsize::new(0);
+pub static CONSUMED: Cell0 = Cell0(AtomicUsize::new(B_CONSUMED), B_CONSUMED);
 /// Number of non-empty commit calls.
-pub static PRODUCE_CALLS: AtomicUsize = AtomicUsize::new(0);
+pub static PRODUCE_CALLS: Cell0 = Cell0(AtomicUsize::new(B_PCALLS), B_PCALLS);
 /// Number of consume calls (including consume(0)).
-pub static CONSUME_CALLS: AtomicUsize = AtomicUsize::new(0);
-static ACT_HOOK: AtomicUsize = AtomicUsize::new(0);
+pub static CONSUME_CALLS: Cell0 = Cell0(AtomicUsize::new(B_CCALLS), B_CCALLS);
+static ACT_HOOK: Cell0 = Cell0(AtomicUsize::new(B_ACT), B_ACT);
 
 /// Install a callback run at every commit/consume (kind, n).
 pub fn set_activity_hook(f: Option<fn(u32, usize)>) {
@@ -65,7 +92,7 @@ pub fn activity_total() -> usize {
     PRODUCED.load(Ordering::SeqCst) + CONSUMED.load(Ordering::SeqCst)
 }
 
-static HOOK: AtomicUsize = AtomicUsize::new(0);
+static HOOK: Cell0 = Cell0(AtomicUsize::new(B_HOOK), B_HOOK);
 /// Install a callback run at every scheduling point.
 pub fn set_yield_hook(f: Option<fn(u32)>) {
     HOOK.store(f.map(|f| f as usize).unwrap_or(0), Ordering::SeqCst);
@@ -86,7 +113,7 @@ pub fn yield_point(id: u32) {
 }
 
 /// Number of `lock()` calls on the stand-in mutex (all mutexes).
-pub static LOCKS: AtomicUsize = AtomicUsize::new(0);
+pub static LOCKS: Cell0 = Cell0(AtomicUsize::new(B_LOCKS), B_LOCKS);
 
 /// Fixed-capacity string used for tag keys/values in verification builds.
 #[derive(Clone, Copy, PartialEq, PartialOrd)]
